@@ -3,6 +3,7 @@ Invariants of the flow-buffer model (Rv/Model/FlowBuffer.lean) and its simulatio
 FIFO specification. Helper lemmas for Rv/Props/C02.lean.
 -/
 import Rv.Model.FlowBuffer
+import Rv.Lemmas.RingFlowU
 import Rv.Spec.Fifo
 namespace Rv.Flow
 open Rv.Spec
@@ -27,12 +28,12 @@ theorem InvF.init (size : Nat) : InvF (init size) := by
 structure Sim (σ : State) (evs : List Fifo.Ev) (q : Fifo.Q) : Prop where
   run : Fifo.run Fifo.empty evs = some q
   deqs : Fifo.deqs evs = σ.wlog
-  fins : (Fifo.fins evs).map (·.1) = σ.clog.map (·.1)
+  fins : Fifo.fins evs = σ.clog
   enqs : Fifo.enqs evs = σ.elog.map dup
   pend : q.pending = σ.w.map (fun t => dup t.2)
   writ : q.written = (pcur σ ++ σ.r.map (·.2)).map dup
 
-theorem step_inv_sim {σ : State} (h : InvF σ) (l : Label) (he : enabled l σ = true)
+theorem step_inv_sim {σ : State} (h : InvF σ) (hu : InvU σ) (l : Label) (he : enabled l σ = true)
     {evs : List Fifo.Ev} {q : Fifo.Q} (sim : Sim σ evs q) :
     InvF (apply l σ) ∧ ∃ evs' q', Sim (apply l σ) (evs ++ evs') q' := by
   cases l with
@@ -105,11 +106,15 @@ theorem step_inv_sim {σ : State} (h : InvF σ) (l : Label) (he : enabled l σ =
         simp only [enabled, hcur, Bool.and_eq_true] at he
         simpa using he.1
       have e0 : pcur σ = [cmd] := by simp [pcur, hcur, hd]
-      refine ⟨⟨h.cons, h.enq, ?_⟩, [.fin cmd cmd], { q with written := (σ.r.map (·.2)).map dup }, ?_⟩
+      have hcc : c = cmd := by
+        simp only [enabled, hcur, Bool.and_eq_true] at he
+        exact hu.deliver_eq hcur (by simpa using he.2)
+      subst hcc
+      refine ⟨⟨h.cons, h.enq, ?_⟩, [.fin c c], { q with written := (σ.r.map (·.2)).map dup }, ?_⟩
       · simp only; rw [h.wr, e0]; simp [pcur, hcur]
       · refine ⟨?_, ?_, ?_, ?_, sim.pend, ?_⟩
         · rw [Fifo.run_append, sim.run]
-          have : q.written = (cmd, cmd) :: (σ.r.map (·.2)).map dup := by rw [sim.writ, e0]; rfl
+          have : q.written = (c, c) :: (σ.r.map (·.2)).map dup := by rw [sim.writ, e0]; rfl
           simp [Fifo.run, Fifo.step, this]
         · rw [Fifo.deqs_append, sim.deqs]; simp [Fifo.deqs]
         · rw [Fifo.fins_append]; simp [Fifo.fins, sim.fins]
@@ -134,15 +139,82 @@ theorem step_inv_sim {σ : State} (h : InvF σ) (l : Label) (he : enabled l σ =
 
 theorem reachable_inv_sim {size : Nat} {σ : State} (h : Reachable size σ) :
     InvF σ ∧ σ.size = size ∧ ∃ evs q, Sim σ evs q := by
+  have hu : ∀ {τ : State}, Reachable size τ → InvU τ := InvU.of_reachable
   induction h with
   | init =>
     refine ⟨InvF.init size, rfl, [], Fifo.empty, ?_⟩
     refine ⟨rfl, rfl, rfl, rfl, rfl, rfl⟩
-  | step l _ he ih =>
+  | step l hr he ih =>
     obtain ⟨hi, hs, evs, q, sim⟩ := ih
-    obtain ⟨hi', evs', q', sim'⟩ := step_inv_sim hi l he sim
+    obtain ⟨hi', evs', q', sim'⟩ := step_inv_sim hi (hu hr) l he sim
     refine ⟨hi', ?_, _, _, sim'⟩
     rw [← hs]
     cases l <;> simp only [Flow.apply] <;> split <;> rfl
+
+
+/-- caller c is inside PutOne (holds a token) or waits for its reply -/
+def pending (σ : State) (c : Nat) : Prop := (∃ ch, (c, ch) ∈ σ.hold) ∨ (∃ ch, σ.pc c = .filled ch)
+
+theorem no_deadlock {size : Nat} {σ : State} (h : Reachable size σ) (c : Nat) (hc : pending σ c) :
+    ∃ l, l ≠ .recv ∧ enabled l σ = true := by
+  obtain ⟨i, _, _⟩ := reachable_inv_sim h
+  have u := InvU.of_reachable h
+  have hcons := i.cons
+  rcases hc with ⟨ch, hm⟩ | ⟨ch, hp⟩
+  · refine ⟨.send c, by simp, ?_⟩
+    have hpos := List.length_pos_of_mem hm
+    simp only [enabled]
+    cases hf : σ.hold.find? (fun p => p.1 == c) with
+    | none =>
+      have := List.find?_eq_none.1 hf (c, ch) hm
+      simp at this
+    | some p => simp; omega
+  · rcases u.fil c ch hp with a | a | a
+    · refine ⟨.wTake, by simp, ?_⟩
+      have : 0 < σ.w.length := List.length_pos_of_mem a
+      have hne : σ.w ≠ [] := List.ne_nil_of_length_pos this
+      simp [enabled, hne]; omega
+    · have hr : 0 < σ.r.length := List.length_pos_of_mem a
+      have hne : σ.r ≠ [] := List.ne_nil_of_length_pos hr
+      cases hcur : σ.cur with
+      | none => exact ⟨.rBegin, by simp, by simp [enabled, hcur, hne]⟩
+      | some t =>
+        obtain ⟨ch', cmd'⟩ := t
+        cases hd : σ.delivered with
+        | true =>
+          refine ⟨.rFinish, by simp, ?_⟩
+          simp [hcur] at hcons
+          simp [enabled, hcur, hd]; omega
+        | false =>
+          have := u.tok ch' cmd' (Or.inr (Or.inr ⟨hcur, hd⟩))
+          exact ⟨.rDeliver cmd', by simp, by simp [enabled, hcur, hd, this]⟩
+    · exact ⟨.rDeliver c, by simp, by simp [enabled, a.1, a.2, hp]⟩
+
+
+
+/-- every completed (command, receiver) pair is diagonal: the receiver is the command's caller -/
+theorem clog_diag {size : Nat} {σ : State} (h : Reachable size σ) : ∀ p, p ∈ σ.clog → p.1 = p.2 := by
+  induction h with
+  | init => intro p hp; simp [Flow.init] at hp
+  | step l hr he ih =>
+    have u := InvU.of_reachable hr
+    cases l with
+    | rDeliver c =>
+      simp only [Flow.apply]
+      split
+      · rename_i ch cmd hcur
+        simp only [enabled, hcur, Bool.and_eq_true] at he
+        have hcc : c = cmd := u.deliver_eq hcur (by simpa using he.2)
+        intro p hp
+        simp only [List.mem_append, List.mem_singleton] at hp
+        rcases hp with hp | hp
+        · exact ih p hp
+        · subst hp; exact hcc.symm
+      · exact ih
+    | recv => simp only [Flow.apply]; split <;> exact ih
+    | send c => simp only [Flow.apply]; split <;> exact ih
+    | wTake => simp only [Flow.apply]; split <;> exact ih
+    | rBegin => simp only [Flow.apply]; split <;> exact ih
+    | rFinish => simp only [Flow.apply]; split <;> exact ih
 
 end Rv.Flow
